@@ -7,29 +7,44 @@ Traces == ndJsonDeserialize(IOEnv.TRACE_FILE)
 NT == Len(Traces)
 ASSUME \A i \in 1..NT : TLCSet(i, 0)
 
-VARIABLES tid, l
+VARIABLES tid, l,
+          pend     \* function whose post_execution_hook has to fire next (0 = none)
 T  == Traces[tid]
 Ev == T.ev[l]
 IsEvent(e) == l <= Len(T.ev) /\ Ev.e = e /\ l' = l + 1 /\ UNCHANGED tid
+Quiet == pend = 0 /\ UNCHANGED pend
 
-Init == tid \in 1..NT /\ l = 1 /\ CallInit(T.desc)
+Init == tid \in 1..NT /\ l = 1 /\ CallInit(T.desc) /\ pend = 0
 
 FIdxByName(n) == CHOOSE i \in FIdx(d) : d.funcs[i].name = n
 
-TBegin      == IsEvent("begin") /\ Begin(Ev.out, Ev.kw, Ev.mode)
+(* post_execution_hook (optional field `hook` of a function): after every execution of the function, before anything else  *)
+(* happens, the hook is called once with the function's OWN result (a tuple for several outputs, whatever the caller       *)
+(* supplied for sibling outputs) and the keyword arguments of that execution                                               *)
+HasHook(i)  == "hook" \in DOMAIN d.funcs[i] /\ d.funcs[i].hook
+OwnVal(i, o) == IF ReturnsNone(d, i) THEN NoneT
+                ELSE LET ps == d.funcs[i].params IN Term(o, [k \in 1..Len(ps) |-> ArgVal(d, kw, i, ps[k])])
+OwnResult(i) == LET os == d.funcs[i].outputs IN
+                IF Len(os) = 1 THEN OwnVal(i, os[1]) ELSE Term("#arr", [k \in 1..Len(os) |-> OwnVal(i, os[k])])
+
+TBegin      == IsEvent("begin") /\ Begin(Ev.out, Ev.kw, Ev.mode) /\ Quiet
 TCall       == IsEvent("call") /\ (\E i \in FIdx(d) : d.funcs[i].name = Ev.f) /\ Call(FIdxByName(Ev.f), Ev.kwargs)
-TReturn     == IsEvent("return") /\ Return(Ev.val)
-TReturnFull == IsEvent("returnfull") /\ ReturnFull(SeqToSet(Ev.pairs))
-TRaise      == IsEvent("raise") /\
+               /\ pend = 0 /\ pend' = IF HasHook(FIdxByName(Ev.f)) THEN FIdxByName(Ev.f) ELSE 0
+THook       == IsEvent("hook") /\ pend # 0 /\ d.funcs[pend].name = Ev.f
+               /\ Ev.kwargs = ArgsOf(d, kw, pend) /\ Ev.val = OwnResult(pend)
+               /\ pend' = 0 /\ UNCHANGED cvars
+TReturn     == IsEvent("return") /\ Return(Ev.val) /\ Quiet
+TReturnFull == IsEvent("returnfull") /\ ReturnFull(SeqToSet(Ev.pairs)) /\ Quiet
+TRaise      == IsEvent("raise") /\ Quiet /\
                \/ (Ev.cls = "UnusedParametersError" /\ RaiseUnused)
                \/ (Ev.cls = "ValueError" /\ (RaiseMissing \/ RaiseOutputSupplied))
 
 (* a combination listed by arg_combinations(out) must be a valid cut: the evaluation is defined and every name is consulted *)
-TCombo      == IsEvent("combo") /\ phase = "idle" /\ ~PHas(Ev.kw, Ev.out)
+TCombo      == IsEvent("combo") /\ phase = "idle" /\ ~PHas(Ev.kw, Ev.out) /\ Quiet
                /\ Defined(d, Ev.kw, Ev.out) /\ Surplus(d, Ev.kw, Ev.out) = {} /\ UNCHANGED cvars
 
-Next == TCombo \/ TBegin \/ TCall \/ TReturn \/ TReturnFull \/ TRaise
-Spec == Init /\ [][Next]_<<cvars, tid, l>>
+Next == TCombo \/ TBegin \/ TCall \/ THook \/ TReturn \/ TReturnFull \/ TRaise
+Spec == Init /\ [][Next]_<<cvars, tid, l, pend>>
 
 Track == IF l > TLCGet(tid) THEN TLCSet(tid, l) ELSE TRUE
 InvDoneOnlyNeeded == DoneOnlyNeeded
